@@ -406,6 +406,10 @@ Section GatherAdjoint.
   Qed.
 End GatherAdjoint.
 
+(* From here on every theorem of a kernel Section takes ALL hypotheses of its Section as
+   premises (uniform, independent of which ones lia happened to use). *)
+Local Set Default Proof Using "All".
+
 (* ================================================================== identity_pairs
    copy_tensor / reshape / flatten forward: y[i] = x[i] *)
 Theorem identity_sequential n : sequential (identity_pairs n) n.
